@@ -157,6 +157,59 @@ theorem sph_update (alpha beta rhat : α) (x w : List α) :
 
 theorem sph_new (x : List α) : Gen.HypersphereART.new_weight x = sphNew x := rfl
 
+/-! ### Ellipsoid ART -/
+
+theorem ell_distance (mu : α) (x c axis : List α) :
+    Gen.EllipsoidART.category_distance Transc.sqrt mu x c axis = ellDist mu x c axis := by
+  unfold Gen.EllipsoidART.category_distance ellDist
+  simp only
+  split <;> rfl
+
+theorem ell_choice (alpha mu rhat : α) (dim : Nat) (x w : List α) :
+    Gen.EllipsoidART.category_choice Transc.sqrt dim mu rhat alpha x w = ellChoice alpha mu rhat dim x w := by
+  unfold Gen.EllipsoidART.category_choice ellChoice
+  simp only
+  rw [ell_distance]
+  have h2 : (2 : α) = 1 + 1 := by norm_num
+  rw [h2]
+  rfl
+
+/-- the match rule, fed with the cache entry `dist` that `category_choice` writes -/
+theorem ell_match (alpha mu rhat : α) (dim : Nat) (x w : List α) :
+    Gen.EllipsoidART.match_criterion rhat
+        (Gen.EllipsoidART.category_choice_cache_dist Transc.sqrt dim mu rhat alpha x w) x w =
+      ellMatch mu rhat dim x w := by
+  unfold Gen.EllipsoidART.match_criterion Gen.EllipsoidART.category_choice_cache_dist ellMatch
+  simp only
+  rw [ell_distance]
+  rfl
+
+/-- the update rule, fed with the cache entry `dist` that `category_choice` writes -/
+theorem ell_update (alpha beta mu rhat : α) (dim : Nat) (x w : List α) :
+    Gen.EllipsoidART.update Transc.sqrt dim beta
+        (Gen.EllipsoidART.category_choice_cache_dist Transc.sqrt dim mu rhat alpha x w) x w =
+      ellUpdate beta mu dim x w := by
+  unfold Gen.EllipsoidART.update Gen.EllipsoidART.category_choice_cache_dist ellUpdate
+  simp only
+  rw [ell_distance]
+  have h2 : (2 : α) = 1 + 1 := by norm_num
+  rw [h2]
+  -- the centre: `t * shrink` (generated) vs `f * t` (model)
+  have hc : ∀ (f : α) (c v : List α),
+      List.zipWith (fun s t => s + t) c (List.map (fun t => t * f) (List.map (fun t => beta / (1 + 1) * t) v)) =
+        vadd c (smul f (smul (beta / (1 + 1)) v)) := by
+    intro f c v
+    unfold vadd smul
+    congr 1
+    rw [List.map_map, List.map_map]
+    apply List.map_congr_left
+    intro t _
+    simp only [Function.comp]; ring
+  simp only [gt_iff_lt, hc]
+  rfl
+
+theorem ell_new (x : List α) : Gen.EllipsoidART.new_weight x = ellNew x := rfl
+
 /-! ### Decision logic: match tracking, comparison operator, supervised veto -/
 
 section Logic
